@@ -390,6 +390,86 @@ fn c06_strace(ctx: &mut Ctx, b: &Built, tampered: bool) {
     }
 }
 
+/// Output paths that are symbolic links to regular files elsewhere (`docs/README.md -> ../README.md`):
+/// build writes through the link; verify has to read through it as well: it passes on the fresh
+/// tree, fails when the linked file is tampered with, and changes nothing in either case.
+fn c06_symlinked_output(ctx: &mut Ctx, r: &mut StdRng) {
+    let root = ctx.scratch.fresh();
+    let mut files = Files::new();
+    // the link text lengths (12, 13, ...) are made to coincide with some output lengths on purpose
+    let body_len = r.gen_range(0..4usize);
+    let src = format!("{}\n-TXTPP#run echo gen\n", "x".repeat(body_len + 7));
+    files.insert("docs/short.txt.txtpp".into(), src.into_bytes());
+    files.insert("docs/README.md.txtpp".into(), b"# readme\n<!-- TXTPP#include part.md\nend\n".to_vec());
+    files.insert("docs/part.md".into(), b"part one\npart two\n".to_vec());
+    materialize(&root, &files, &["store".to_string()]);
+    let links = [("docs/short.txt", "../short.txt", "short.txt"), ("docs/README.md", "../store/README.md", "store/README.md")];
+    for (l, t, real) in links {
+        let _ = std::fs::write(root.join(real), b"old\n");
+        let _ = std::os::unix::fs::symlink(t, root.join(l));
+    }
+    let mut case = ProjectCase::simple(files.clone());
+    case.threads = [1, 2, 4][r.gen_range(0..3)];
+    case.inputs = vec![["docs", ".", "docs/README.md"][r.gen_range(0..3)].to_string()];
+    let only_readme = case.inputs[0] == "docs/README.md";
+    let cj = json!({"kind": "symlinked-output", "inputs": case.inputs, "threads": case.threads, "body_len": body_len});
+    let b = run_at(&root, &case, Mode::Build, true);
+    ctx.evals += 1;
+    if !b.verdict.is_ok() {
+        // D13 (generated paths are regular files or absent) is left here on purpose; a build that
+        // refuses to write through a link is not judged
+        ctx.count("symlinked_output_build_not_ok", 1);
+        ctx.scratch.discard(&root);
+        return;
+    }
+    set_sentinels(&root);
+    let s1 = snap(&root);
+    let v = run_at(&root, &case, Mode::Verify, true);
+    ctx.evals += 1;
+    ctx.count("symlinked_output_cases", 1);
+    if matches!(v.verdict, Verdict::Watchdog) {
+        ctx.inconclusive("watchdog in verify (symlinked output)");
+        ctx.scratch.discard(&root);
+        return;
+    }
+    if !v.verdict.is_ok() {
+        ctx.violation("C06:rejects-up-to-date", format!("verify right after a successful build failed when output paths are symbolic links to regular files: {}", v.verdict.short()), cj.clone());
+    }
+    if snap(&root) != s1 {
+        ctx.violation("C06:verify-modified-output", "verify changed the tree (outputs behind symbolic links)".to_string(), cj.clone());
+    }
+    for (l, _, real) in links {
+        if only_readme && l != "docs/README.md" {
+            continue;
+        }
+        let p = root.join(real);
+        let good = std::fs::read(&p).unwrap_or_default();
+        for how in ["append-byte", "append-line", "truncate-last", "flip-first"] {
+            let mut bad = good.clone();
+            match how {
+                "append-byte" => bad.push(b'!'),
+                "append-line" => bad.extend_from_slice(b"one more line\n"),
+                "truncate-last" => {
+                    bad.pop();
+                }
+                _ => bad[0] ^= 1,
+            }
+            let _ = std::fs::write(&p, &bad);
+            let v = run_at(&root, &case, Mode::Verify, true);
+            ctx.evals += 1;
+            if v.verdict.is_ok() {
+                ctx.violation(format!("C06:accepts-tamper:{how}"), format!("verify passed although {real} (the file behind the output link {l}) was tampered with ({how})"), cj.clone());
+            }
+            if std::fs::read(&p).unwrap_or_default() != bad {
+                ctx.violation("C06:verify-modified-output", format!("verify rewrote {real}"), cj.clone());
+            }
+            let _ = std::fs::write(&p, &good);
+        }
+    }
+    ctx.distinct.insert(crate::util::hash_str(&cj.to_string()));
+    ctx.scratch.discard(&root);
+}
+
 fn run_c06(ctx: &mut Ctx) {
     let mut r = StdRng::seed_from_u64(ctx.shard_seed());
     let n = ctx.tier.pick(40, 1500);
@@ -397,6 +477,9 @@ fn run_c06(ctx: &mut Ctx) {
     for i in 0..n {
         if !ctx.time_left() || ctx.violations.len() > 20 {
             break;
+        }
+        if i % 8 == 1 {
+            c06_symlinked_output(ctx, &mut r);
         }
         let Some(b) = build_good(ctx, &mut r, &opts, None) else { continue };
         c06_project(ctx, &b, &mut r);
@@ -412,6 +495,13 @@ fn run_c06(ctx: &mut Ctx) {
 }
 
 fn replay_c06(ctx: &mut Ctx, v: &Value) {
+    if v["kind"].as_str() == Some("symlinked-output") {
+        let mut r = StdRng::seed_from_u64(5);
+        for _ in 0..30 {
+            c06_symlinked_output(ctx, &mut r);
+        }
+        return;
+    }
     let case = ProjectCase::from_json(v);
     let root = ctx.scratch.fresh();
     let res = run_project_at(ctx, &case, &root, false);
@@ -564,9 +654,13 @@ fn c07_case(ctx: &mut Ctx, case: &ProjectCase, mlog: &Path, history: &str, r: &m
     ctx.scratch.discard(&root);
 }
 
-fn c07_strace(ctx: &mut Ctx, case: &ProjectCase) {
+/// options in front of the `clean` subcommand belong to the top level: the run is still a clean
+const CLEAN_SPELLINGS: [&[&str]; 6] = [&[], &["-N"], &["--needed"], &["-n"], &["-q", "-N"], &["-r", "--needed", "-j", "3"]];
+
+fn c07_strace(ctx: &mut Ctx, case: &ProjectCase, spelling: usize) {
     let root = ctx.scratch.fresh();
     materialize(&root, &case.files, &case.dirs);
+    let s0 = snap(&root);
     let b = run_at(&root, case, Mode::Build, case.trailing);
     if !b.verdict.is_ok() {
         ctx.scratch.discard(&root);
@@ -576,13 +670,23 @@ fn c07_strace(ctx: &mut Ctx, case: &ProjectCase) {
     let _ = std::fs::remove_dir_all(prefix.parent().unwrap());
     let _ = std::fs::create_dir_all(prefix.parent().unwrap());
     let cfg = RunCfg { base: root.clone(), inputs: vec![".".into()], mode: Mode::Clean, threads: 2, recursive: true, trailing: true, shell: String::new() };
-    let o = run_cli(&root, &cfg.cli_args(), &CliOpts { strace_prefix: Some(prefix.clone()), ..Default::default() });
+    let top = CLEAN_SPELLINGS[spelling % CLEAN_SPELLINGS.len()];
+    let mut args: Vec<String> = top.iter().map(|x| x.to_string()).collect();
+    args.extend(cfg.cli_args());
+    let o = run_cli(&root, &args, &CliOpts { strace_prefix: Some(prefix.clone()), ..Default::default() });
     ctx.evals += 1;
     ctx.count("straced_cli_runs", 1);
+    ctx.cover("cli_clean_spellings", &format!("txtpp {} clean", top.join(" ")));
     let tr = crate::sys::parse_strace(prefix.parent().unwrap(), &root);
     ctx.count("syscalls_classified", tr.lines_by_txtpp as u64);
     if o.code != Some(0) {
         ctx.violation("C07:cli-clean-failed", format!("CLI clean: {}", o.short()), case.to_json());
+    } else if !o.timed_out {
+        let s1 = snap(&root);
+        if s1.bytes() != s0.bytes() {
+            let d = diff(&s0, &s1);
+            ctx.violation("C07:left-behind", format!("after a build and `txtpp {}` the tree differs from the tree before the build: left behind {:?}, missing {:?}, changed {:?}", args.join(" "), d.created, d.deleted, d.content), case.to_json());
+        }
     }
     if !tr.execs.is_empty() {
         ctx.violation("C07:clean-execve", format!("txtpp executed a program during clean: {:?}", tr.execs.iter().map(|e| e.argv.clone()).collect::<Vec<_>>()), case.to_json());
@@ -678,6 +782,81 @@ fn c07_race(ctx: &mut Ctx, rounds: usize) {
     }
 }
 
+/// Temp targets that are pre-existing *dangling symbolic links* (e.g. `src/data.inc -> ../build/data.inc`):
+/// build writes through the link and thereby creates the file behind it; clean has to remove that
+/// generated file and leave the link, a non-generated file, alone: the tree is restored exactly.
+fn c07_symlinked_temp(ctx: &mut Ctx, r: &mut StdRng) {
+    let root = ctx.scratch.fresh();
+    let n = r.gen_range(1..=3usize);
+    let mut files = Files::new();
+    let mut links: Vec<(String, String)> = vec![];
+    let mut src = String::from("page head\n");
+    for k in 0..n {
+        let (arg, link, target) = match r.gen_range(0..3) {
+            0 => (format!("data{k}.inc"), format!("src/data{k}.inc"), format!("../build/data{k}.inc")),
+            1 => (format!("gen/part{k}.tmp"), format!("src/gen/part{k}.tmp"), format!("../../build/deep/part{k}.tmp")),
+            _ => (format!("../other/t{k}.sh"), format!("other/t{k}.sh"), format!("{}/build/t{k}.sh", root.display())),
+        };
+        // a text line ends the block (a following `// ` line would continue the directive)
+        src.push_str(&format!("// TXTPP#temp {arg}\n// echo generated {k}\n//\nbetween {k}\n"));
+        if r.gen_bool(0.5) {
+            src.push_str(&format!("<!--TXTPP#run cat {arg}\n"));
+        }
+        links.push((link, target));
+    }
+    src.push_str("page tail\n");
+    files.insert("src/page.txt.txtpp".into(), src.into_bytes());
+    files.insert("src/plain.txt".into(), b"plain\n".to_vec());
+    materialize(&root, &files, &["build/deep".to_string(), "src/gen".to_string(), "other".to_string()]);
+    for (l, t) in &links {
+        let _ = std::os::unix::fs::symlink(t, root.join(l));
+    }
+    set_sentinels(&root);
+    let s0 = snap(&root);
+    let mut case = ProjectCase::simple(files.clone());
+    case.threads = [1, 2, 4][r.gen_range(0..3)];
+    case.inputs = vec![[".", "src", "src/page.txt"][r.gen_range(0..3)].to_string()];
+    let cj = json!({"kind": "symlinked-temp", "links": links, "inputs": case.inputs, "source": String::from_utf8_lossy(&files["src/page.txt.txtpp"])});
+    let b = run_at(&root, &case, Mode::Build, true);
+    ctx.evals += 1;
+    if !b.verdict.is_ok() {
+        if matches!(b.verdict, Verdict::Watchdog) {
+            ctx.inconclusive("watchdog in build (symlinked temp)");
+        } else {
+            ctx.violation("C07:symlinked-temp:build-failed", format!("build with temp targets behind dangling symbolic links failed: {}", b.verdict.short()), cj);
+        }
+        ctx.scratch.discard(&root);
+        return;
+    }
+    let s1 = snap(&root);
+    ctx.count("symlinked_temp_cases", 1);
+    ctx.count("files_generated_behind_links", diff(&s0, &s1).created.len() as u64);
+    for round in 0..2 {
+        let c = run_at(&root, &case, Mode::Clean, true);
+        ctx.evals += 1;
+        if !c.verdict.is_ok() {
+            if matches!(c.verdict, Verdict::Watchdog) {
+                ctx.inconclusive("watchdog in clean (symlinked temp)");
+            } else {
+                ctx.violation("C07:clean-failed", format!("clean (round {round}) failed: {}", c.verdict.short()), cj.clone());
+            }
+            break;
+        }
+        let s2 = snap(&root);
+        let d = diff(&s0, &s2);
+        if !d.is_empty() {
+            ctx.violation(
+                if !d.created.is_empty() { "C07:left-behind" } else if !d.deleted.is_empty() { "C07:deleted-non-generated" } else { "C07:modified-non-generated" },
+                format!("temp targets behind symbolic links: tree after build + clean (round {round}) differs from the tree before the build: left behind {:?}, missing {:?}, content changed {:?}, touched {:?}", d.created, d.deleted, d.content, d.touched),
+                cj.clone(),
+            );
+            break;
+        }
+    }
+    ctx.distinct.insert(crate::util::hash_str(&cj.to_string()));
+    ctx.scratch.discard(&root);
+}
+
 fn run_c07(ctx: &mut Ctx) {
     let rounds = ctx.tier.pick(3, 60);
     c07_race(ctx, rounds);
@@ -695,7 +874,10 @@ fn run_c07(ctx: &mut Ctx) {
         let h = hist[(i as usize) % hist.len()];
         c07_case(ctx, &case, &mlog, h, &mut r);
         if i < ctx.tier.pick(2, 20) {
-            c07_strace(ctx, &case);
+            c07_strace(ctx, &case, i as usize * 3 + ctx.shard as usize);
+        }
+        if i % 40 == 7 {
+            c07_symlinked_temp(ctx, &mut r);
         }
         if i == 0 {
             ctx.sample(|| json!({"history": h, "sources": model::sources(&case.files)}));
@@ -706,6 +888,13 @@ fn run_c07(ctx: &mut Ctx) {
 fn replay_c07(ctx: &mut Ctx, v: &Value) {
     if v["kind"].as_str() == Some("race") {
         c07_race(ctx, 60);
+        return;
+    }
+    if v["kind"].as_str() == Some("symlinked-temp") {
+        let mut r = StdRng::seed_from_u64(7);
+        for _ in 0..60 {
+            c07_symlinked_temp(ctx, &mut r);
+        }
         return;
     }
     let case = ProjectCase::from_json(v);
@@ -1552,12 +1741,68 @@ fn c10_cli_combos(ctx: &mut Ctx, files: &Files, trailing: bool) {
     }
 }
 
+/// An output path that is a symbolic link to a regular file elsewhere: verify touches nothing, and
+/// the only path clean may remove is the output path itself (the link), never the file behind it.
+fn c10_symlinked_output(ctx: &mut Ctx, r: &mut StdRng) {
+    let root = ctx.scratch.fresh();
+    let mut files = Files::new();
+    files.insert("site/index.html.txtpp".into(), b"<html>\n<!-- TXTPP#run echo body\n</html>\n".to_vec());
+    files.insert("site/about.txtpp.html".into(), b"about\n".to_vec());
+    files.insert("shared/index.html".into(), b"<html>\nbody\n</html>\n".to_vec());
+    files.insert("shared/about.html".into(), b"shared about page, not generated\n".to_vec());
+    materialize(&root, &files, &[]);
+    let _ = std::os::unix::fs::symlink("../shared/index.html", root.join("site/index.html"));
+    let _ = std::os::unix::fs::symlink(root.join("shared/about.html"), root.join("site/about.html"));
+    set_sentinels(&root);
+    let mut case = ProjectCase::simple(files.clone());
+    case.threads = [1, 2, 4][r.gen_range(0..3)];
+    case.inputs = vec![[".", "site", "site/index.html.txtpp"][r.gen_range(0..3)].to_string()];
+    let mode = if r.gen_bool(0.5) { Mode::Clean } else { Mode::Verify };
+    let name = crate::run::mode_name(&mode);
+    let cj = json!({"kind": "symlinked-output", "mode": name, "inputs": case.inputs, "threads": case.threads});
+    let s0 = snap(&root);
+    let o = run_at(&root, &case, mode.clone(), true);
+    ctx.evals += 1;
+    ctx.count("symlinked_output_cases", 1);
+    if matches!(o.verdict, Verdict::Watchdog) {
+        ctx.inconclusive("watchdog (symlinked output)");
+        ctx.scratch.discard(&root);
+        return;
+    }
+    let s1 = snap(&root);
+    let d = diff(&s0, &s1);
+    let outputs = ["site/index.html", "site/about.html"];
+    for p in d.all_paths() {
+        let is_output = outputs.contains(&p.as_str());
+        if matches!(mode, Mode::Verify) || !is_output {
+            ctx.violation(
+                format!("C10:{name}:touched-other-path"),
+                format!("{name} created/changed/deleted {p}{}", if p.starts_with("shared/") { " (the regular file behind an output path that is a symbolic link; not an output path)" } else { "" }),
+                cj.clone(),
+            );
+        }
+    }
+    ctx.distinct.insert(crate::util::hash_str(&cj.to_string()));
+    ctx.scratch.discard(&root);
+}
+
 fn run_c10(ctx: &mut Ctx) {
     let mut r = StdRng::seed_from_u64(ctx.shard_seed());
     let n = ctx.tier.pick(300, 12_000);
     for i in 0..n {
         if !ctx.time_left() || ctx.violations.len() > 20 {
             break;
+        }
+        if i % 40 == 5 {
+            // sources with names that are not valid UTF-8 + decoys at the lossy spellings of their outputs
+            let (findings, cj) = crate::props::rawnames::scenario(ctx, &mut r);
+            for f in findings.iter().filter(|f| f.class == "touched") {
+                ctx.violation(format!("C10:{}:touched-decoy", f.mode), f.msg.clone(), cj.clone());
+            }
+            ctx.distinct.insert(crate::util::hash_str(&format!("raw{i}{}", ctx.shard)));
+        }
+        if i % 20 == 9 {
+            c10_symlinked_output(ctx, &mut r);
         }
         let opts = GenOpts { error_pct: if i % 3 == 0 { 15 } else { 0 }, ..GenOpts::default() };
         let p = gen_project(&mut r, &opts);
@@ -1593,6 +1838,23 @@ fn run_c10(ctx: &mut Ctx) {
 }
 
 fn replay_c10(ctx: &mut Ctx, v: &Value) {
+    if v["kind"].as_str() == Some("symlinked-output") {
+        let mut r = StdRng::seed_from_u64(5);
+        for _ in 0..30 {
+            c10_symlinked_output(ctx, &mut r);
+        }
+        return;
+    }
+    if v["kind"].as_str() == Some("raw-names") {
+        let mut r = StdRng::seed_from_u64(3);
+        for _ in 0..10 {
+            let (findings, cj) = crate::props::rawnames::scenario(ctx, &mut r);
+            for f in findings.iter().filter(|f| f.class == "touched") {
+                ctx.violation(format!("C10:{}:touched-decoy", f.mode), f.msg.clone(), cj.clone());
+            }
+        }
+        return;
+    }
     if v["kind"].as_str() == Some("cli-combo") {
         c10_cli_combos(ctx, &crate::util::files_from_json(&v["files"]), v["trailing"].as_bool().unwrap_or(true));
         return;
